@@ -215,13 +215,13 @@ CORPUS = [
     # D21 (repaired): a QoS re-announcement of a matched endpoint is not a new match, on either side
     PAIR + ["writer w0 pb0 t0A", "reader r0 sb1 t1A", "status w0 publication_matched", "status r0 subscription_matched",
             "set-qos r0 user_data=aa", "status w0 publication_matched", "set-qos w0 user_data=bb", "status r0 subscription_matched"],
-    # D22 (open): the reader asks for a deadline the writer does not offer: both sides keep the match
+    # D22 (repaired; was: both sides keep the match): the reader asks for a deadline the writer does not offer
     PAIR + ["writer w0 pb0 t0A", "reader r0 sb1 t1A", f"set-qos r0 deadline={SEC}", "log", "status w0 publication_matched", "matched w0",
             "status r0 subscription_matched", "matched r0", "trace on", "write w0 1 1", "trace show"],
-    # D23 (open), writer side: the reader's participant falls silent; after the lease the reader is matched AGAIN
+    # D23 (repaired; was: after the lease the reader is matched AGAIN), writer side: the reader's participant falls silent
     PAIR + ["writer w0 pb0 t0A", "reader r0 sb1 t1A", "status w0 publication_matched", "drop-if from=P1", f"advance {130 * SEC}",
             "status w0 publication_matched", "matched w0", "trace on", "write w0 1 1", "trace show"],
-    # D23 (open), reader side: the writer's participant falls silent; the reader keeps it matched for ever
+    # D23 (repaired; was: the reader keeps it matched for ever), reader side: the writer's participant falls silent
     PAIR + ["writer w0 pb0 t0A", "reader r0 sb1 t1A", "status r0 subscription_matched", "drop-if from=P0", f"advance {130 * SEC}",
             "status r0 subscription_matched", "matched r0"],
     # incompatible from the start, compatible later, deleted, participant deleted
@@ -261,9 +261,7 @@ class Spec:
         self.eps = {}        # name -> dict(w, part, topic, qos, alive, handle, listener)
         self.exp = {}        # ep name -> set of ep names expected matched
         self.total = {}      # ep name -> expected total
-        self.d22 = set()
-        self.d23 = set()
-        self.stale = {}      # participant -> endpoints of participants it removed for silence (D23: the code never purges them)
+        self.removed = {}    # participant -> endpoints of participants it removed (deleted, silent): must never be matched again
         self.selfdead = set()  # participants that expired themselves (artefact of loopback loss): local pairs are not judged
 
     def delivers(self, s, x):
@@ -288,15 +286,11 @@ class Spec:
         if not px["alive"] or y not in px["known"]:
             return
         px["known"].discard(y)
-        for e in self.eps:
-            if self.eps[e]["part"] == x and self.eps[e]["alive"]:
-                if any(self.eps[f]["part"] == y for f in self.exp.get(e, ())):
-                    self.d23.add(e)
         if x == y:
             self.selfdead.add(x)
         for f in [f for f in px["view"] if self.eps[f]["part"] == y]:
             del px["view"][f]
-            self.stale.setdefault(x, set()).add(f)
+            self.removed.setdefault(x, set()).add(f)
 
     def recompute(self):
         for e, ep in self.eps.items():
@@ -311,8 +305,6 @@ class Spec:
                 ok = _rxo(ep["qos"], fq) if ep["w"] else _rxo(fq, ep["qos"])
                 if ok:
                     new.add(f)
-                elif f in self.exp.get(e, ()):
-                    self.d22.add(e)      # was matched, became incompatible
             old = self.exp.get(e, set())
             self.total[e] = self.total.get(e, 0) + len(new - old)
             self.exp[e] = new
@@ -408,11 +400,8 @@ def oracle(case, out):
     last = {}     # ep -> (total, current) at the last read (status getter or listener call)
 
     def known_cause(e):
-        ep = sp.eps[e]
-        if e in sp.d23 or any(sp.eps[f]["w"] != ep["w"] and sp.eps[f]["topic"] == ep["topic"] for f in sp.stale.get(ep["part"], ())):
-            return "participant-removal-leaves-matched-state"
-        if e in sp.d22:
-            return "incompatible-endpoint-stays-matched"
+        # D22 and D23 are repaired: an endpoint that stays matched after it became incompatible, or after its participant
+        # was removed, is a plain violation now (no cause = nothing is suppressed)
         return None
 
     def add(i, what, e=None, cause=None):
@@ -474,21 +463,15 @@ def oracle(case, out):
                 names = {ep["handle"]: n for n, ep in sp.eps.items()}
                 extra = sorted(names.get(h, h) for h in got - want)
                 missing = sorted(names.get(h, h) for h in want - got)
+                # labels of the repaired defects (entries with status "fixed" suppress nothing)
                 cause = None
+                view = sp.parts[sp.eps[e]["part"]]["view"]
                 if extra and not missing:
-                    view = sp.parts[sp.eps[e]["part"]]["view"]
-                    cs = []
-                    for f in extra:
-                        if f in sp.stale.get(sp.eps[e]["part"], ()):
-                            cs.append("participant-removal-leaves-matched-state")
-                        elif f in view and e in sp.d22:
-                            cs.append("incompatible-endpoint-stays-matched")
-                        else:
-                            cs.append(None)
-                    cause = cs[0] if all(c is not None for c in cs) else None
-                    add(i, f"{e}: matched endpoints {sorted(names.get(h, h) for h in got)}: unexpected {extra}", None, cause)
-                else:
-                    add(i, f"{e}: matched endpoints {sorted(names.get(h, h) for h in got)}: unexpected {extra}, missing {missing}", e)
+                    if all(f in sp.removed.get(sp.eps[e]["part"], ()) for f in extra):
+                        cause = "participant-removal-leaves-matched-state"
+                    elif all(f in view for f in extra):
+                        cause = "incompatible-endpoint-stays-matched"
+                add(i, f"{e}: matched endpoints {sorted(names.get(h, h) for h in got)}: unexpected {extra}, missing {missing}", e, cause)
         elif t[:2] == ["trace", "show"] and o.startswith("ok"):
             # the write op just before
             w = case.lines[i - 1].split()[1]
